@@ -100,6 +100,12 @@ impl SegtreeItem<Aff> for SumAff {
 pub trait HItem: SegtreeItem<Self::Md> + Clone + Default + Debug {
     type Md: Debug + Clone;
     fn leaf(c: i64) -> Self;
+    /// the same element carrying a junk pending-modifier field (public fields; a copy of a leaf read out of
+    /// another tree looks like this)
+    fn leaf_j(c: i64, j: i64) -> Self {
+        let _ = j;
+        Self::leaf(c)
+    }
     fn obs(&self) -> Value;
     fn md(v: &Value) -> Self::Md;
 }
@@ -108,6 +114,9 @@ impl HItem for HashAff {
     type Md = Aff;
     fn leaf(c: i64) -> Self {
         HashAff { h: c.rem_euclid(Q), len: 1, pa: 1, pb: 0 }
+    }
+    fn leaf_j(c: i64, j: i64) -> Self {
+        if j == 1 { HashAff { h: c.rem_euclid(Q), len: 1, pa: 2, pb: 1 } } else { Self::leaf(c) }
     }
     fn obs(&self) -> Value {
         json!([self.h, self.len])
@@ -120,6 +129,9 @@ impl HItem for SumAff {
     type Md = Aff;
     fn leaf(c: i64) -> Self {
         SumAff { v: c, len: 1, pa: 1, pb: 0 }
+    }
+    fn leaf_j(c: i64, j: i64) -> Self {
+        if j == 1 { SumAff { v: c, len: 1, pa: 2, pb: 1 } } else { Self::leaf(c) }
     }
     fn obs(&self) -> Value {
         json!([self.v, self.len])
@@ -147,12 +159,34 @@ macro_rules! plain_item {
 plain_item!(Min, (), |_v: &Value| ());
 plain_item!(Max, (), |_v: &Value| ());
 plain_item!(Sum, (), |_v: &Value| ());
-plain_item!(MinAdd, i64, |v: &Value| v.as_i64().unwrap());
-plain_item!(MaxAdd, i64, |v: &Value| v.as_i64().unwrap());
+macro_rules! add_item {
+    ($t:ident) => {
+        impl HItem for $t<i64> {
+            type Md = i64;
+            fn leaf(c: i64) -> Self {
+                <$t<i64>>::new(c)
+            }
+            fn leaf_j(c: i64, j: i64) -> Self {
+                $t { v: c, md: if j == 1 { 3 } else { 0 } }
+            }
+            fn obs(&self) -> Value {
+                json!(self.v)
+            }
+            fn md(v: &Value) -> i64 {
+                v.as_i64().unwrap()
+            }
+        }
+    };
+}
+add_item!(MinAdd);
+add_item!(MaxAdd);
 impl HItem for SumAdd<i64> {
     type Md = i64;
     fn leaf(c: i64) -> Self {
         SumAdd::new(c)
+    }
+    fn leaf_j(c: i64, j: i64) -> Self {
+        SumAdd { v: c, len: 1, md: if j == 1 { 3 } else { 0 } }
     }
     fn obs(&self) -> Value {
         json!([self.v, self.len])
@@ -165,6 +199,9 @@ impl<U: HItem, V: HItem<Md = U::Md>> HItem for Combinator<U, V> {
     type Md = U::Md;
     fn leaf(c: i64) -> Self {
         Combinator(U::leaf(c), V::leaf(c))
+    }
+    fn leaf_j(c: i64, j: i64) -> Self {
+        Combinator(U::leaf_j(c, j), V::leaf_j(c, j))
     }
     fn obs(&self) -> Value {
         json!([self.0.obs(), self.1.obs()])
@@ -196,17 +233,18 @@ pub fn holds(pred: &Value, obs: &Value) -> bool {
 fn apply_op<T: HItem>(t: &mut Option<Segtree<T, T::Md>>, op: &Value) {
     let a = op["a"].as_i64().unwrap_or(0);
     let b = op["b"].as_i64().unwrap_or(0);
+    let j = op["j"].as_i64().unwrap_or(0);
     match gets(op, "op") {
-        "new" => *t = Some(Segtree::new(a as usize, T::leaf(b))),
+        "new" => *t = Some(Segtree::new(a as usize, T::leaf_j(b, j))),
         "slice" => {
-            let items: Vec<T> = arr(op, "m").iter().map(|c| T::leaf(c.as_i64().unwrap())).collect();
+            let items: Vec<T> = arr(op, "m").iter().map(|c| T::leaf_j(c.as_i64().unwrap(), j)).collect();
             *t = Some(Segtree::from_slice(&items));
         }
         "iter" => {
-            let items: Vec<T> = arr(op, "m").iter().map(|c| T::leaf(c.as_i64().unwrap())).collect();
+            let items: Vec<T> = arr(op, "m").iter().map(|c| T::leaf_j(c.as_i64().unwrap(), j)).collect();
             *t = Some(Segtree::from_iter(items.into_iter()));
         }
-        "set" => t.as_mut().unwrap().set(a as usize, T::leaf(b)),
+        "set" => t.as_mut().unwrap().set(a as usize, T::leaf_j(b, j)),
         "modify" => t.as_mut().unwrap().modify(a as usize, b as usize, &T::md(&op["m"])),
         "ask" => {
             t.as_mut().unwrap().ask(a as usize, b as usize);
@@ -440,6 +478,24 @@ fn record_run<T: HItem>(alg: &str, rng: &mut Rng, t: &mut TraceWriter, n: usize,
     }
     // phases: mixed / modifies only / queries only
     for k in 0..ops {
+        if k == ops / 2 && style % 2 == 0 {
+            // snapshot: rebuild the tree from copies of its own leaves (they carry whatever pending field they have)
+            let r = catch(|| {
+                let leaves: Vec<T> = (0..n).map(|i| tree.ask(i, i)).collect();
+                let vals: Vec<Value> = leaves.iter().map(|x| x.obs()).collect();
+                (Segtree::<T, T::Md>::from_slice(&leaves), vals)
+            });
+            match r {
+                Ok((nt, vals)) => {
+                    tree = nt;
+                    t.ev(json!({"ev": "rebuild_from_leaves", "leaves": vals}));
+                }
+                Err(p) => {
+                    t.ev(json!({"ev": "rebuild_from_leaves", "panic": p}));
+                    return;
+                }
+            }
+        }
         let phase = (k * 6 / ops.max(1)) % 3;
         let roll = rng.below(100);
         let (l, r) = {
